@@ -2238,7 +2238,10 @@ impl<'store> AnnotationStore {
                         self.remove(resource)?;
                     }
                     for annotation in remove_annotations {
-                        self.remove(annotation)?;
+                        //(an annotation may already be gone: removing an earlier result cascades to the annotations that target it)
+                        if <AnnotationStore as StoreFor<Annotation>>::get(self, annotation).is_ok() {
+                            self.remove(annotation)?;
+                        }
                     }
                     for (set, key) in remove_keys {
                         self.remove_key(set, key, true)?;
